@@ -25,7 +25,7 @@ type Case struct {
 
 func TestMain(m *testing.M) {
 	h.Setup("C13",
-		"F-full ASTs biased to deep nesting, counted loops, many alternations and lookarounds (large backtracking demand) and corpus patterns x options x inputs of 0-60 runes (pattern-directed, repeated) x stack limits L drawn from {0..200} plus {256, 1000, 100000} and the unlimited setting -1; one evaluation = one (pattern,input,L): the result under L equals the unlimited result or the error is ErrBacktrackingStackLimit, nothing panics, the allocated backtracking stack (private state via the scan-stats hook, and the pooled state after public calls) never exceeds L slots, success at L implies success at every larger generated L', and after every call the same Regexp answers a probe like a freshly compiled one; non-trivial = for this (pattern,input) some generated L gives the limit error and some larger L succeeds (the limit actually bites); distinct = hash of (pattern, options, input, L)",
+		"F-full ASTs biased to deep nesting, counted loops, many alternations and lookarounds (large backtracking demand), runs of 3-14 consecutive single-character loops (left-to-right, RightToLeft, inside positive and negative lookbehinds) and corpus patterns x options x inputs of 0-60 runes (pattern-directed, repeated) x stack limits L drawn from {0..200} plus {256, 1000, 100000} and the unlimited setting -1; one evaluation = one (pattern,input,L): the result under L equals the unlimited result or the error is ErrBacktrackingStackLimit, nothing panics, the allocated backtracking stack (private state via the scan-stats hook, and the pooled state after public calls) never exceeds L slots, success at L implies success at every larger generated L', and after every call the same Regexp answers a probe like a freshly compiled one; non-trivial = for this (pattern,input) some generated L gives the limit error and some larger L succeeds (the limit actually bites); distinct = hash of (pattern, options, input, L)",
 		map[string]float64{"limit-error": 0.15, "success-under-finite-L": 0.25, "bites/inputs": 0.2},
 		"'unlimited' is OptionMaxBacktrackingStackSize(-1)")
 	h.Ceiling("compile-error", 0.25)
